@@ -2,6 +2,7 @@
 package main
 
 import (
+	"bytes"
 	"fmt"
 	"hash"
 	"strings"
@@ -150,9 +151,17 @@ func exec(line string) string {
 			if k > len(src) {
 				return "bad-op"
 			}
-			n, err := h.Write(src[:k])
+			// the hash must neither modify nor keep the caller's buffer
+			buf := append([]byte(nil), src[:k]...)
+			n, err := h.Write(buf)
 			if n != k || err != nil {
 				return "err"
+			}
+			if !bytes.Equal(buf, src[:k]) {
+				return "input-modified"
+			}
+			for j := range buf {
+				buf[j] ^= 0x5a
 			}
 			src = src[k:]
 		case strings.HasPrefix(t, "s:"):
@@ -161,7 +170,19 @@ func exec(line string) string {
 			for j := range pre {
 				pre[j] = byte(0xa0 + j)
 			}
-			outs = append(outs, hx.Catch(func() string { return hx.Hex(h.Sum(pre)) }))
+			outs = append(outs, hx.Catch(func() string {
+				res := h.Sum(pre)
+				for j := 0; j < k; j++ { // Sum(b) appends to b and leaves b[:len(b)] alone
+					if pre[j] != byte(0xa0+j) {
+						return "input-modified"
+					}
+				}
+				out := hx.Hex(res)
+				for j := range res { // the caller may scribble over the result
+					res[j] = 0xee
+				}
+				return out
+			}))
 		default:
 			return "bad-op"
 		}
